@@ -211,6 +211,9 @@ func (sc *serverConn) processData(f *DataFrame) error {
 		st.inflow.take(int32(len(data)))
 		wrote, err := st.body.Write(data)
 		if err != nil {
+			// the bytes were taken from both windows but will never be
+			// read: give them back to the connection-level window
+			sc.sendWindowUpdate(nil, len(data))
 			state.SpdyErrStreamAlreadyClosed.Inc(1)
 			return StreamError{id, StreamAlreadyClosed}
 		}
